@@ -255,6 +255,9 @@ pub fn ctx_spec() -> CtxSpec {
     spec.fns.push(("m0".into(), FnSpec::Host(vec!["this-value".into()], Body::Const(Value::Int(0)))));
     spec.fns.push(("m1".into(), FnSpec::Host(vec!["this-value".into(), "pos-value".into()], Body::Const(Value::Int(1)))));
     spec.fns.push(("m2".into(), FnSpec::Host(vec!["this-value".into(), "pos-value".into(), "pos-value".into()], Body::Const(Value::Int(2)))));
+    // a receiver parameter that is not the first parameter
+    spec.fns.push(("pt".into(), FnSpec::Host(vec!["pos-value".into(), "this-value".into()], Body::Const(Value::Int(5)))));
+    spec.fns.push(("ptp".into(), FnSpec::Host(vec!["pos-value".into(), "this-value".into(), "pos-value".into()], Body::Const(Value::Int(6)))));
     // a receiver parameter combined with the all-arguments extractor (see known finding D27)
     spec.fns.push(("ta".into(), FnSpec::Host(vec!["this-value".into(), "args".into()], Body::Const(Value::Int(7)))));
     spec
@@ -423,6 +426,15 @@ pub fn generate(tier: Tier, rng: &mut Rng) -> Vec<Case> {
                 push(format!("t(1).m{k}({})", args.join(", ")), None, usize::MAX, vec!["arity-mismatch"], &mut out);
                 push(format!("m{k}({})", args.join(", ")), None, usize::MAX, vec!["arity-mismatch"], &mut out);
             }
+        }
+    }
+    // receiver parameter in second position: both styles, every arity; the model decides
+    for f in ["pt", "ptp"] {
+        for n in 0..=4usize {
+            let args: Vec<String> = (0..n).map(|i| format!("t({})", i + 1)).collect();
+            push(format!("{f}({})", args.join(", ")), None, usize::MAX, vec!["this-not-first"], &mut out);
+            push(format!("t(9).{f}({})", args.join(", ")), None, usize::MAX, vec!["this-not-first"], &mut out);
+            push(format!("h1({f}({})) + {f}({})", args.join(", "), args.join(", ")), None, usize::MAX, vec!["this-not-first"], &mut out);
         }
     }
     // a failing operand between logging ones: what precedes it is evaluated once, what follows not
